@@ -1030,8 +1030,22 @@ static void enumerate_c09(void)
 	/* EC keys on curves outside JOSE, which the importer passes through to libcrypto by name: the size rule applies to them
 	 * all the same (a 512-bit curve is not the 521-bit one ES512 demands); no completeness demand */
 	vk_load_extra();
+	for (int k = 0; k < vk_extra_n; k++) {
+		if (strcmp(vk_extra[k].kty, "RSA"))
+			continue;
+		/* moduli that are not a whole number of octets, above the floor: they must work */
+		for (int a = 0; a < 6; a++) {
+			if (!vf_case("RSA key %s (%d bits) with %s", vk_extra[k].name, vk_extra[k].bits, tok_alg_names[RSA[a]]))
+				continue;
+			pk_t p = { 0 };
+			p.name = vk_extra[k].name;
+			p.vk = &vk_extra[k];
+			rc_rng_reseed(vf_case_index());
+			floor_cell(&p, RSA[a], p.vk->bits >= 2048, 1);
+		}
+	}
 	for (int k = 0; k < vk_extra_n; k++)
-		for (int a = 0; a < 4; a++) {
+		for (int a = 0; a < 4 && !strcmp(vk_extra[k].kty, "EC"); a++) {
 			if (!vf_case("EC key %s (%s, %d bits) with %s", vk_extra[k].name, vk_extra[k].crv, vk_extra[k].bits, tok_alg_names[ES[a]]))
 				continue;
 			pk_t p = { 0 };
